@@ -157,6 +157,22 @@ func c02eval(text string, o c02opts) (fs []docFinding, harness string, class str
 			continue
 		}
 		penv2 := p2.Env.ToMap()
+		// one verification env object (signed pipeline env + unrelated variables) used for all steps in document order:
+		// every step verifies and the caller's map is left as it was
+		shared := map[string]string{"BUILDKITE_UNRELATED": "x", "ZZZ": "1"}
+		for kk, vv := range penv {
+			shared[kk] = vv
+		}
+		sharedBefore := canonEnv(shared)
+		for i, cs := range again {
+			if err := sigVerifyStep(k, cs, c02repo, shared); err != nil {
+				fs = append(fs, docFinding{"verify-shared-env-" + leg, fmt.Sprintf("command #%d (%q) with one env map reused for all steps: %v\n  output: %s", i, cs.Command, err, out)})
+				break
+			}
+		}
+		if after := canonEnv(shared); after != sharedBefore {
+			fs = append(fs, docFinding{"verify-modifies-env-" + leg, "Verify changed the caller's env map: " + sharedBefore + " -> " + after})
+		}
 		for i, cs := range again {
 			// whole-pipeline entry point, verification env = the signed pipeline env + unrelated variables
 			if err := sigVerifyStep(k, cs, c02repo, venvFor(penv, cs)); err != nil {
@@ -394,7 +410,7 @@ func init() {
 			"pipeline env forms, extras), YAML and JSON input; (2) the <=1-deviation slice with every key kind (EdDSA, ES512, PS512, ES256 crypto.Signer) with and without Interpolate before signing; (3) every string of " +
 			"the C09 alphabet (look-alikes + all strings of <=1/2 runes) at every signed string position (pipeline env names/values, command, step env, plugin configs, matrix) of two base documents; (4) sign+marshal " +
 			"under every explored map iteration order (seam). Lifecycle per case: Parse -> [Interpolate] -> SignSteps(pipeline env) -> marshal JSON and YAML -> Parse the output / CommandStep.UnmarshalJSON of each step's JSON -> " +
-			"Verify every command step with verification env = signed pipeline env (and the re-parsed pipeline's env) + step env + unrelated variables. Pipelines with unknown steps must be refused. Non-trivial = at least one " +
+			"Verify every command step with verification env = signed pipeline env (and the re-parsed pipeline's env) + step env + unrelated variables, and all steps in document order with ONE env map object (signed pipeline env + unrelated variables), which must be left unchanged. Pipelines with unknown steps must be refused. Non-trivial = at least one " +
 			"command step verified after a round trip.",
 		Assumptions: []string{
 			"YAML leg exclusions as in C09 (multi-line strings beginning with white space; key '<<')",
